@@ -52,11 +52,11 @@ fn is_ident(s: &str) -> bool {
     s != "true" && s != "false" && s != "null" && s != "in" && cs.all(|c| c.is_ascii_alphanumeric() || c == '_')
 }
 
-fn presence_law(keys: &[Key], q: &Key) -> String {
+fn presence_law(keys: &[Key], q: &Key, round: usize) -> String {
     // evaluate all forms on the implementation and compare the notions of "present"
     let mut m = HashMap::new();
     for (i, k) in keys.iter().enumerate() {
-        m.insert(k.clone(), Value::Int(10 + i as i64));
+        m.insert(k.clone(), stored(i, round).0);
     }
     let spec = CtxSpec { vars: vec![("m".into(), Value::Map(Map { map: Arc::new(m) }))], funs: vec![] };
     let ctx = spec.build();
@@ -85,20 +85,47 @@ fn presence_law(keys: &[Key], q: &Key) -> String {
     }
 }
 
+/// keys at the ends of the two integer ranges (an int and a uint with the same bit pattern are
+/// different keys), and string keys spelled like built-in functions
+fn extreme_alphabet() -> Vec<Key> {
+    vec![Key::Int(-1), Key::Uint(u64::MAX), Key::Int(i64::MIN), Key::Uint(1 << 63), Key::Int(i64::MAX), Key::Uint(i64::MAX as u64),
+         ks("size"), ks("contains"), ks("k")]
+}
+fn extreme_queries() -> Vec<Key> {
+    let mut q = extreme_alphabet();
+    q.extend(vec![Key::Int(0), Key::Uint(0), Key::Int(-2), Key::Uint(u64::MAX - 1), Key::Int(i64::MIN + 1), Key::Uint((1 << 63) + 1),
+                  Key::Uint((1 << 63) - 1), ks("max"), ks("string")]);
+    q
+}
+/// the value stored under the i-th key: (value, source); the second round stores values that a
+/// truthiness test would take for absent
+fn stored(i: usize, round: usize) -> (Value, String) {
+    if round == 0 {
+        return (Value::Int(10 + i as i64), format!("{}", 10 + i));
+    }
+    match i % 5 {
+        0 => (Value::Int(0), "0".into()),
+        1 => (Value::Bool(false), "false".into()),
+        2 => (Value::String(Arc::new(String::new())), "''".into()),
+        3 => (Value::List(Arc::new(vec![])), "[]".into()),
+        _ => (Value::UInt(0), "0u".into()),
+    }
+}
+
 pub fn run(em: &mut Emit, thorough: bool, seed: u64) {
-    let alpha = key_alphabet();
-    let queries = query_keys();
-    let maps = subsets(&alpha, if thorough { 4 } else { 3 });
+  for (round, (alpha, queries, maxk)) in [(key_alphabet(), query_keys(), if thorough { 4 } else { 3 }),
+                                          (extreme_alphabet(), extreme_queries(), if thorough { 3 } else { 2 })].into_iter().enumerate() {
+    let maps = subsets(&alpha, maxk);
     for keys in &maps {
         let mut m = HashMap::new();
         for (i, k) in keys.iter().enumerate() {
-            m.insert(k.clone(), Value::Int(10 + i as i64));
+            m.insert(k.clone(), stored(i, round).0);
         }
         let mv = Value::Map(Map { map: Arc::new(m) });
         let spec = CtxSpec { vars: vec![("m".into(), mv)], funs: vec![] };
         let lit = format!(
             "{{{}}}",
-            keys.iter().enumerate().map(|(i, k)| format!("{}: {}", key_src(k), 10 + i)).collect::<Vec<_>>().join(", ")
+            keys.iter().enumerate().map(|(i, k)| format!("{}: {}", key_src(k), stored(i, round).1)).collect::<Vec<_>>().join(", ")
         );
         // the literal denotes exactly the entries written
         emit_program(em, &lit, &CtxSpec::default(), "nt=1;kind=map-literal");
@@ -125,11 +152,12 @@ pub fn run(em: &mut Emit, thorough: bool, seed: u64) {
                 }
             }
             let (keys2, q2) = (keys.clone(), q.clone());
-            let law = guarded(move || presence_law(&keys2, &q2));
+            let law = guarded(move || presence_law(&keys2, &q2, round));
             em.case("(echo (bool true))", &law, &format!("nt={};kind=law-presence", (absent || twin) as u8),
                     &format!("presence of {} in {}", k, lit));
         }
     }
+  }
     // non-key query types and field selection falling back to functions
     {
         let spec = CtxSpec { vars: vec![("m".into(), Value::Map(Map { map: Arc::new(HashMap::from([(ks("a"), Value::Int(1)), (ks("size"), Value::Int(2))])) }))], funs: vec![] };
